@@ -392,18 +392,68 @@ fn gen_tree_eligible_in(rng: &Rng, pool: &Pool, depth: usize, max_files: usize, 
             }
         }
     }
-    // a large file: more than 64 KiB (now and then more than 1 MiB) of comment lines in front of ordinary content
-    if rng.chance(1, 16) {
+    // a large file: 9 KiB, 70 KiB or (now and then) 1.5 MiB of comment lines in front of ordinary content; the comment
+    // lines are mostly multi-byte characters behind a first line of random length, so that characters straddle every
+    // "round" offset in some file
+    if rng.chance(1, 10) {
         let n = format!("Large{}.sol", rng.below(20));
         if used.insert(n.clone()) {
-            let lines = if rng.chance(1, 6) { 40000 } else { 1900 }; // about 1.3 MiB or 64 KiB of comment lines
+            let lines = match rng.below(12) {
+                0 => 20000,
+                1..=5 => 900,
+                _ => 120,
+            };
             let nl = if rng.chance(1, 3) { "\r\n" } else { "\n" };
-            let mut t = String::new();
+            let mut t = format!("// {}{}", "x".repeat(rng.below(40)), nl);
             for i in 0..lines {
-                t.push_str(&format!("// filler line {:06} x++; a >= b{}", i, nl));
+                if rng.chance(1, 4) {
+                    t.push_str(&format!("// filler line {:06} x++; a >= b{}", i, nl));
+                } else {
+                    t.push_str(&format!("// 合约合约合约合约合约合约合约合约 é {:06} 合约合约合约合约{}", i, nl));
+                }
             }
             t.push_str(&rng.pick(&pool.progs).1);
             ents.push(Ent::File { name: n, bytes: t.into_bytes() });
+        }
+    }
+    // large twins: more than 128 KiB, the same length, the same first and last 64 KiB, another middle
+    if rng.chance(1, 12) {
+        let n = format!("BigTwin{}.sol", rng.below(3));
+        if used.insert(n.clone()) {
+            let body = if rng.chance(1, 2) { same_length_edit(twin).unwrap_or_else(|| twin.to_string()) } else { twin.to_string() };
+            let j = rng.below(4) as usize;
+            let mut t = String::new();
+            for i in 0..1700 {
+                t.push_str(&format!("// leading filler line {:06} x++; a >= b\n", i));
+            }
+            t.push_str(&format!("{}{}{}", "\n".repeat(j), body, "\n".repeat(3 - j)));
+            for i in 0..1700 {
+                t.push_str(&format!("// trailing filler line {:06} x++; a >= b\n", i));
+            }
+            ents.push(Ent::File { name: n, bytes: t.into_bytes() });
+        }
+    }
+    // a file next to something that looks like a copy of it (other content)
+    if rng.chance(1, 8) {
+        if let Some(Ent::File { name, .. }) = ents.iter().find(|e| matches!(e, Ent::File { name, .. } if name.ends_with(".sol") && name.is_ascii())) {
+            let stem = name.trim_end_matches(".sol").to_string();
+            let n = format!("{}{}.sol", stem, rng.ps(&["_flat", "_flattened", "Copy", ".old", " (copy)", "-1", "_v2", ".min"]));
+            if used.insert(n.clone()) {
+                let (_, text) = rng.pick(&pool.progs);
+                ents.push(Ent::File { name: n, bytes: text.clone().into_bytes() });
+            }
+        }
+    }
+    // a chain of 45-60 nested one-letter directories around a small sub-tree
+    if depth == 0 && rng.chance(1, 16) {
+        let mut kids = gen_tree_eligible_in(rng, pool, 3, 2, 1, twin);
+        for lvl in 0..rng.range(45, 60) {
+            kids = vec![Ent::Dir { name: ((b'a' + (lvl % 26) as u8) as char).to_string(), kids }];
+        }
+        if let Some(Ent::Dir { name, .. }) = kids.first() {
+            if used.insert(name.clone()) {
+                ents.extend(kids);
+            }
         }
     }
     // clearly ineligible files with parseable, finding-rich content (they must simply be skipped)
